@@ -56,11 +56,22 @@ Lemma vmul_int_overflow a b :
 Proof. intros H. cbn. unfold int_or_float. now rewrite H. Qed.
 
 (** *** division and mixed operands: IEEE double, then normalised *)
+Lemma to_f64_int_text r : to_f64 (int_text r) = to_f64 r.
+Proof.
+  destruct r; try reflexivity. cbn [int_text]. destruct (from_string s) eqn:E; try reflexivity.
+  cbn [to_f64]. unfold aggressively_to_num. now rewrite E.
+Qed.
+Lemma is_date_int_text r : is_date (int_text r) = is_date r.
+Proof. destruct r; try reflexivity. cbn [int_text]. destruct (from_string s); reflexivity. Qed.
+(** (a date converts to a number - num(date) - but is no operand of / : the typed arms of + and - say what dates do) *)
 Lemma vdiv_numbers l r a b :
+  is_date l = false -> is_date r = false ->
   to_f64 l = Ok a -> to_f64 r = Ok b -> vdiv l r = Ok (from_float (fdiv a b)).
 Proof.
-  intros Ha Hb. unfold vdiv.
-  destruct l; try (unfold binary_op; now rewrite Ha, Hb).
+  intros Dl Dr Ha Hb. unfold vdiv. rewrite <- to_f64_int_text in Hb. rewrite <- is_date_int_text in Dr.
+  destruct l; try discriminate Ha; try discriminate Dl; destruct (int_text r); cbn [vdiv_typed];
+    try discriminate Hb; try discriminate Dr;
+    unfold binary_op; cbn [is_date orb]; now rewrite Ha, Hb.
 Qed.
 
 Lemma vadd_mixed z f : vadd (VInt z) (VFloat f) = Ok (from_float (fadd (f_of_Z z) f)).
